@@ -110,7 +110,8 @@ def nwk_of(D, with_internal=True, quoted=False):
         if not D.meta.get('lengths'):
             return s_
         # (zero-length branches included: distance-based shortcuts must not confuse a genome with its ancestor)
-        return s_ if root else s_ + ':' + ('0.1', '2.5', '0', '0.0')[sum(map(ord, t[0])) % 4]
+        # (... and lengths that add up to exactly 1 over two edges: r12-C12a, a depth computed from distances)
+        return s_ if root else s_ + ':' + ('0.1', '2.5', '0', '0.0', '1', '0.5')[sum(map(ord, t[0])) % 6]
     return rec(D.T, True) + ';'
 
 def load_py(D, groups=None, species=None, **kw):
